@@ -4,6 +4,7 @@ package main
 
 import (
 	"fmt"
+	"go/types"
 	"sort"
 	"strings"
 
@@ -233,6 +234,15 @@ func ruleNODESOURCES(c *Ctx, r *Report) {
 					continue
 				}
 				hasField := false
+				copied := false
+				for _, ref := range *a.Referrers() {
+					if st, ok := ref.(*ssa.Store); ok && st.Addr == ssa.Value(a) {
+						copied = true // a copy of an existing token (e.g. a spilled parameter), not a fabrication
+					}
+				}
+				if copied {
+					continue
+				}
 				for _, ref := range *a.Referrers() {
 					if fa, ok := ref.(*ssa.FieldAddr); ok {
 						for _, r2 := range *fa.Referrers() {
@@ -371,6 +381,8 @@ func ruleLOOP(c *Ctx, r *Report) {
 			switch {
 			case c.isRangeHeader(h):
 				r.ok(rule, key, pos, "bounded range loop")
+			case c.isCountingLoop(h):
+				r.ok(rule, key, pos, "counting loop: induction variable strictly increases towards a loop-invariant bound")
 			case isState[fn]:
 				r.ok(rule, key, pos, "lexer state loop (LEX-LOOP)")
 			case lr.Err == "" && fn == lr.Next:
@@ -385,6 +397,90 @@ func ruleLOOP(c *Ctx, r *Report) {
 		}
 	}
 	r.floor(rule, "loops", nLoops, 12)
+}
+
+// isCountingLoop: header tests `i < X` / `i <= X` for a phi i of the header whose every back-edge value
+// is i plus a positive constant (possibly through nested phis), and X is loop-invariant.
+func (c *Ctx) isCountingLoop(h *ssa.BasicBlock) bool {
+	iff, ok := h.Instrs[len(h.Instrs)-1].(*ssa.If)
+	if !ok {
+		return false
+	}
+	bo, ok := iff.Cond.(*ssa.BinOp)
+	if !ok || (bo.Op.String() != "<" && bo.Op.String() != "<=") {
+		return false
+	}
+	ph, ok := bo.X.(*ssa.Phi)
+	if !ok || ph.Block() != h {
+		return false
+	}
+	// bound: defined outside the loop (its block dominates the header and is not the header), a
+	// constant, or len of such a value
+	inv := func(v ssa.Value) bool {
+		switch x := v.(type) {
+		case *ssa.Const, *ssa.Parameter:
+			return true
+		case ssa.Instruction:
+			return x.Block() != h && x.Block().Dominates(h)
+		}
+		return false
+	}
+	bound := bo.Y
+	if call, ok := bound.(*ssa.Call); ok {
+		if bi, ok := call.Call.Value.(*ssa.Builtin); ok && bi.Name() == "len" {
+			a := call.Call.Args[0]
+			if _, isStr := a.Type().Underlying().(*types.Basic); isStr || inv(a) {
+				if inv(a) {
+					bound = nil
+				}
+			}
+		}
+	}
+	if bound != nil && !inv(bound) {
+		return false
+	}
+	var minInc func(v ssa.Value, depth int) (int64, bool)
+	minInc = func(v ssa.Value, depth int) (int64, bool) {
+		if depth > 10 {
+			return 0, false
+		}
+		if v == ssa.Value(ph) {
+			return 0, true
+		}
+		switch x := v.(type) {
+		case *ssa.BinOp:
+			if x.Op.String() == "+" {
+				if n, ok := constIntVal(x.Y); ok && n > 0 {
+					if m, ok := minInc(x.X, depth+1); ok {
+						return m + n, true
+					}
+				}
+			}
+		case *ssa.Phi:
+			best := int64(-1)
+			for _, e := range x.Edges {
+				m, ok := minInc(e, depth+1)
+				if !ok {
+					return 0, false
+				}
+				if best < 0 || m < best {
+					best = m
+				}
+			}
+			return best, best >= 0
+		}
+		return 0, false
+	}
+	for i, pred := range h.Preds {
+		if !(pred == h || h.Dominates(pred)) {
+			continue // entry edge
+		}
+		m, ok := minInc(ph.Edges[i], 0)
+		if !ok || m <= 0 {
+			return false
+		}
+	}
+	return true
 }
 
 func (c *Ctx) isRangeHeader(h *ssa.BasicBlock) bool {
@@ -719,4 +815,86 @@ func ruleREC(c *Ctx, r *Report) {
 		}
 	}
 	r.floor(rule, "formatter operands in renderers", nf, 15)
+}
+
+// NUM-BASE (C03/C06): numeric typing of a bare word is decimal.
+func ruleNUMBASE(c *Ctx, r *Report) {
+	const rule = "NUM-BASE"
+	r.doc(rule, "numeric typing in the token→literal function is decimal: strconv.Atoi, or ParseInt/ParseUint with constant base 10 (base 0 reads a leading 0 as octal and 0x/0b prefixes, so the number in the SQL differs from the digits in the query)")
+	pr := c.parserPreamble(r, rule)
+	if pr == nil || pr.TokToLit == nil {
+		return
+	}
+	n := 0
+	for _, f := range c.reachFrom([]*ssa.Function{pr.TokToLit}) {
+		_ = f
+	}
+	for fn := range c.reachFrom([]*ssa.Function{pr.TokToLit}) {
+		if !inLib(fn) || fnPkgPath(fn) == pkgExpr {
+			continue
+		}
+		for _, b := range fn.Blocks {
+			for _, in := range b.Instrs {
+				call, ok := in.(*ssa.Call)
+				if !ok {
+					continue
+				}
+				name := calleeFullName(call)
+				switch name {
+				case "strconv.Atoi":
+					n++
+					r.ok(rule, fnName(fn)+"|Atoi", c.instrPos(in), "decimal")
+				case "strconv.ParseInt", "strconv.ParseUint":
+					n++
+					base, isC := constIntVal(call.Call.Args[1])
+					if isC && base == 10 {
+						r.ok(rule, fnName(fn)+"|"+name, c.instrPos(in), "base 10")
+					} else {
+						r.badW(rule, fnName(fn)+"|"+name+"|base", c.instrPos(in), fmt.Sprintf("%s types integers with %s base %s: a zero-padded number is read as octal (and 0x/0b prefixes are accepted), so the rendered number is not the one written in the query", fnName(fn), name, c.key(call.Call.Args[1], nil)), "`a:010` renders `\"a\" = 8`")
+					}
+				}
+			}
+		}
+	}
+	r.floor(rule, "integer parses in the token→literal function", n, 1)
+}
+
+// NO-RECLASSIFY (C08/C11): raw payloads re-read from existing nodes are never handed back to a constructor.
+func ruleNORECLASSIFY(c *Ctx, r *Report) {
+	const rule = "NO-RECLASSIFY"
+	r.doc(rule, "in the packages lucene and reduce every operand passed to an expression constructor is a whole node or a value freshly typed from a token; a raw payload re-read from an existing node (x.Left) is never passed, because the general constructor classifies raw strings by content (a quoted \"what?\" would become a pattern)")
+	n := 0
+	for _, f := range c.Funcs {
+		p := fnPkgPath(f)
+		if p != pkgRoot && p != pkgReduce {
+			continue
+		}
+		for _, b := range f.Blocks {
+			for _, in := range b.Instrs {
+				call, ok := in.(*ssa.Call)
+				if !ok || call.Call.StaticCallee() == nil {
+					continue
+				}
+				callee := call.Call.StaticCallee()
+				if fnPkgPath(callee) != pkgExpr || callee.Signature.Results().Len() != 1 || !isExprPtr(callee.Signature.Results().At(0).Type()) {
+					continue
+				}
+				for ai, a := range c.flattenArgs(call, nil) {
+					n++
+					v := c.resolve(a, nil)
+					k := c.key(v, nil)
+					if !isEmptyInterface(v.Type()) {
+						continue
+					}
+					if strings.HasSuffix(k, ".Left") || strings.HasSuffix(k, ".Right") {
+						r.badW(rule, fmt.Sprintf("%s|%s|arg%d←%s", fnName(f), fnName(callee), ai, k), c.instrPos(in),
+							fmt.Sprintf("%s passes the raw payload %s of an existing node to %s: the constructor re-classifies raw strings by their content, so a quoted value containing * or ?, or delimited by slashes, changes kind", fnName(f), k, fnName(callee)),
+							"`\"what?\"` with a default field parses to f:WILD(what?) while `a AND \"what?\"` keeps LITERAL(what?)")
+					}
+				}
+			}
+		}
+	}
+	r.ok(rule, "operands-examined", "-", fmt.Sprintf("%d constructor operands in the parser packages examined", n))
+	r.floor(rule, "constructor operands", n, 25)
 }
